@@ -786,6 +786,22 @@ derivative of `P_n^{(α,β)}` at the point -/
 theorem jacobi_der_seq_correct [DecidableEq F] [CharZero F] (al be x₀ : F) (H : ∀ j : ℕ, al + be + (j : F) + 2 ≠ 0) (n : ℕ) :
     jacobiDerSeqRow n al be x₀ = eval x₀ (derivative (jacPoly al be n)) := by
   rw [jacobiDerSeqRow_eq]; exact jacobi_der al be x₀ H n
+
+/-- **`cheby1..4_der_seq`, `legendre_der_seq`, every order**: for the shape the source hands to `jacobi_der_seq` and any normalising
+constant `c`, `c ·` (row `n` of the `jacobi_der_seq` sweep) is the derivative at `x₀` of `c · P_n^{(α,β)}` -/
+theorem cheby_legendre_der_seq_correct [DecidableEq F] [CharZero F] (c x₀ : F) (n : ℕ) (sh : F × F)
+    (hsh : sh = Generated.C09.cheby1DerSeqShape ∨ sh = Generated.C09.cheby2DerSeqShape ∨ sh = Generated.C09.cheby3DerSeqShape ∨
+      sh = Generated.C09.cheby4DerSeqShape ∨ sh = Generated.C09.legendreDerSeqShape) :
+    c * jacobiDerSeqRow n sh.1 sh.2 x₀ = eval x₀ (derivative (C c * jacPoly sh.1 sh.2 n)) := by
+  rw [jacobiDerSeqRow_eq]
+  apply cheby_legendre_der_correct
+  have d := gen_delegations (K := F) 0 0 0
+  rcases hsh with h | h | h | h | h
+  · left; rw [h, d.2.2.2.2.1.1, ← d.1.1]
+  · right; left; rw [h, d.2.2.2.2.2.1.1, ← d.2.1.1]
+  · right; right; left; rw [h, d.2.2.2.2.2.2.1.1, ← d.2.2.1.1]
+  · right; right; right; left; rw [h, d.2.2.2.2.2.2.2.1.1, ← d.2.2.2.1.1]
+  · right; right; right; right; rw [h, d.2.2.2.2.2.2.2.2.1.2.1, ← d.2.2.2.2.2.2.2.2.1.1]
 end SeqMain
 
 /-! ## non-vacuity -/
